@@ -176,29 +176,37 @@ def splitLevel (k : Nat) : Tail → Tail × List (BinOp × Operand × Tail)
     let (seg, more) := splitLevel k rest
     if level o = k then ([], (o, x, seg) :: more) else ((o, x) :: seg, more)
 
-/-- all consecutive separators of one level may be chained -/
-def chainOk : List BinOp → Bool
-  | a :: b :: rest => chainable a b && chainOk (b :: rest)
-  | _ => true
-
-/-- the reference parse of `x0 rest` at level `4 - n` (n levels remain below
-    `Unary`); `none` = rejected. -/
-def refLevel : Nat → Operand → Tail → Option Tree
-  | 0, x0, [] => some x0.tree
-  | 0, _, _ :: _ => none      -- an operator of no level: not in the grammar
+/-- the tree of `x0 rest` by the stratified grammar, at level `4 - n` (n levels
+    remain below `Unary`): split at the operators of this level, parse the
+    segments one level up, combine left-associatively. -/
+def refTree : Nat → Operand → Tail → Tree
+  | 0, x0, _ => x0.tree
   | n + 1, x0, rest =>
     let k := 3 - n
     let (seg0, segs) := splitLevel k rest
-    if chainOk (segs.map (·.1)) then
-      segs.foldl
-        (fun acc s => match acc, refLevel n s.2.1 s.2.2 with
-          | some l, some r => some (.bin s.1 l r)
-          | _, _ => none)
-        (refLevel n x0 seg0)
-    else none
+    segs.foldl (fun acc s => .bin s.1 acc (refTree n s.2.1 s.2.2)) (refTree n x0 seg0)
 
-/-- the documented parse of `x0 op1 x1 op2 x2 …` -/
-def reference (x0 : Operand) (rest : Tail) : Option Tree := refLevel 4 x0 rest
+/-- the first operator of level ≤ `l` -/
+def nextLE (l : Nat) : Tail → Option BinOp
+  | [] => none
+  | (o, _) :: r => if level o ≤ l then some o else nextLE l r
+
+/-- `o` meets an operator of its own level (only tighter operators in
+    between) with which it cannot be chained: `a < b + 1 < c`, `a && b || c` -/
+def clashAt (o : BinOp) (r : Tail) : Bool :=
+  match nextLE (level o) r with
+  | some o' => level o' == level o && !chainable o o'
+  | none => false
+
+/-- no incompatible pair of operators meets at one level -/
+def clashFree : Tail → Bool
+  | [] => true
+  | (o, _) :: r => !clashAt o r && clashFree r
+
+/-- the documented parse of `x0 op1 x1 op2 x2 …`: the tree of the stratified
+    grammar when no incompatible pair meets at one level, rejected otherwise -/
+def reference (x0 : Operand) (rest : Tail) : Option Tree :=
+  if clashFree rest then some (refTree 4 x0 rest) else none
 
 /-- rendering of the abstract expression as tokens -/
 def UnOp.tok : UnOp → Tok
